@@ -90,10 +90,14 @@ def gen_twin(rng, tier):
             ops.append(['process'])
         elif k < 0.9:
             ops.append(['clear'])
-        elif k < 0.94:
+        elif k < 0.92:
             ops.append(['pget', e, rng.randrange(nproc), ctl])
         elif k < 0.98:
-            ops.append(['pset', e, rng.randrange(nproc), ctl])
+            # value: an instance of the declared type or of a subclass with
+            # another class-level priority, optionally with its own priority
+            ops.append(['pset', e, rng.randrange(nproc), ctl,
+                        rng.random() < 0.3,
+                        rng.choice([None, None, -2, 0, 3])])
         else:
             ops.append(['pdel', e, rng.randrange(nproc), ctl])
     return {'mode': 'twin', 'classes': classes, 'nproc': nproc, 'ops': ops}
@@ -169,8 +173,11 @@ def run_twin(case):
             cls = desper.event_handler('on_add', 'on_remove')(cls)
         classes.append(cls)
     procs = [type(f'P{i}', (desper.Processor,),
-                  {'process': lambda self, dt=1: None})
+                  {'process': lambda self, dt=1: None,
+                   'priority': [0, 1, -1][i % 3]})
              for i in range(case['nproc'])]
+    subprocs = [type(f'SubP{i}', (p,), {'priority': [2, -1, 0][i % 3]})
+                for i, p in enumerate(procs)]
 
     ns = {f'ref{i}': desper.ComponentReference(c)
           for i, c in enumerate(classes)}
@@ -316,8 +323,12 @@ def run_twin(case):
                     rb = getattr(ctl, f'pref{op[2]}')
                     ra, rb = (ra is None), (rb is None)
                 elif name == 'pset':
-                    worlds['A'].add_processor(pt())
-                    setattr(ctl, f'pref{op[2]}', pt())
+                    cls = subprocs[op[2]] if len(op) > 4 and op[4] else pt
+                    pa, pb = cls(), cls()
+                    if len(op) > 5 and op[5] is not None:
+                        pa.priority = pb.priority = op[5]
+                    worlds['A'].add_processor(pa)
+                    setattr(ctl, f'pref{op[2]}', pb)
                 else:
                     worlds['A'].remove_processor(pt)
                     delattr(ctl, f'pref{op[2]}')
@@ -335,7 +346,8 @@ def run_twin(case):
         views = []
         for w in (wa, wb):
             view = {'entities': sorted(map(repr, w.entities)),
-                    'procs': [type(p).__name__ for p in w.processors]}
+                    'procs': [(type(p).__name__, p.priority)
+                              for p in w.processors]}
             for e in ids:
                 view[repr(e)] = sorted(repr(lab(c))
                                        for c in w.get_components(e))
